@@ -309,6 +309,9 @@ func TestC11(t *testing.T) {
 	r.Assume("key 0 is excluded (the implementation's empty-slot sentinel; a Zobrist key is 0 with probability 2^-64)")
 	r.Assume("values in [-10000, 10000] (the storable range), depths 0..127, sizes 0..64 MB, a few cases at 512 MB - 1 GB (thorough: up to 4 GB); a lookup miss is always allowed by the statement")
 	r.Excluded("key==0 remapped", 0)
+	if hx.FuzzCrasher(r, "FuzzC11", genFuzzC11, propC11) {
+		return
+	}
 
 	small := []int{0, 1, 1, 1, 2, 3}
 	hx.Sub(r, "machine-small", r.N(4000, 40000), func(t *rapid.T) ttCase { return genTTCase(t, 60, small) }, propC11)
